@@ -186,7 +186,7 @@ def eval_scene(fam, s):
         cell = kind + near
         scale = max(1.0, rad, vlen(d))
         if kind == 'Circle':
-            r = build(Circle, (Point(*c), Vector(*d), rad, n))
+            r = build(Circle, (lib.use_point_elsewhere(Point(*c)), Vector(*d), rad, n))
             if r is None:
                 return cell, viols
             if not isinstance(r, ConvexPolygon) or len(r.points) != n:
@@ -209,7 +209,7 @@ def eval_scene(fam, s):
             return cell, viols
         h = vlen(d)
         fn = Cylinder if kind == 'Cylinder' else Cone
-        r = build(fn, (Point(*c), rad, Vector(*d), n))
+        r = build(fn, (lib.use_point_elsewhere(Point(*c)), rad, Vector(*d), n))
         if r is None:
             return cell, viols
         if not isinstance(r, ConvexPolyhedron):
@@ -248,7 +248,7 @@ def eval_scene(fam, s):
     if kind == 'Sphere':
         c, rad, n1, n2 = s[1:]
         scale = max(1.0, rad)
-        r = build(Sphere, (Point(*c), rad, n1, n2))
+        r = build(Sphere, (lib.use_point_elsewhere(Point(*c)), rad, n1, n2))
         if r is None:
             return cell, viols
         V, E, Fc = len(r.point_set), len(r.segment_set), len(r.convex_polygons)
@@ -284,7 +284,8 @@ def eval_scene(fam, s):
         return cell, viols
     if kind == 'Parallelogram':
         b, v1, v2 = s[1:]
-        r = build(Parallelogram, (lib.P(b), lib.V(v1), lib.V(v2)))
+        # the base point is a caller-owned Point that earlier served other, moved, lines / segments / half-lines
+        r = build(Parallelogram, (lib.use_point_elsewhere(lib.P(b)), lib.V(v1), lib.V(v2)))
         if r is None:
             return cell, viols
         e = X.Pg((b, X.add(b, v1), X.add(X.add(b, v1), v2), X.add(b, v2)))
@@ -298,7 +299,7 @@ def eval_scene(fam, s):
         return cell, viols
     if kind == 'Parallelepiped':
         b, v1, v2, v3 = s[1:]
-        r = build(Parallelepiped, (lib.P(b), lib.V(v1), lib.V(v2), lib.V(v3)))
+        r = build(Parallelepiped, (lib.use_point_elsewhere(lib.P(b)), lib.V(v1), lib.V(v2), lib.V(v3)))
         if r is None:
             return cell, viols
         vs = []
